@@ -1035,17 +1035,10 @@ def spec_bridges(x):
 # ---------------------------------------------------------------------------------------------
 
 PATCHES = {
-    # proposed minimal fixes of the findings (see design.d/C06.md); used to attribute a deviation to a finding:
-    # if it disappears under exactly this patch, it belongs to that finding
-    "fix-shadowed-test_object": ("graph", [(
-        "            for test_object in test_node.objects:\n"
-        "                object_parents = self.get_nodes(\n"
-        "                    \"name\",\n"
-        "                    rf\"(\\.|^){test_object.component_form}(\\.|$)\",",
-        "            for node_object in test_node.objects:\n"
-        "                object_parents = self.get_nodes(\n"
-        "                    \"name\",\n"
-        "                    rf\"(\\.|^){node_object.component_form}(\\.|$)\",")]),
+    # proposed minimal fixes of the recorded findings (design.d/C09.md); used to attribute a deviation to a finding:
+    # if it disappears under exactly this patch, it belongs to that finding.  (The fixes of `shadowed-test_object`
+    # and `first-worker-restricts-vm-objects` were applied to /repo — 407f135, 9333c86 — and are gone from here;
+    # their reverts are mutation-sanity cases in harness/mutations_graph.py.)
     "fix-unique-parent-variant": ("graph", [(
         "        if len(filtered_parents) == 1:\n"
         "            if len(filtered_parents[0].cloned_nodes) > 0:",
@@ -1058,10 +1051,6 @@ PATCHES = {
         "        ]\n"
         "        if len(filtered_parents) == 1:\n"
         "            if len(filtered_parents[0].cloned_nodes) > 0:")]),
-    "fix-objects-of-later-workers": ("graph", [(
-        "                graph.new_objects([s for s in stubs if s.key == \"nets\"])",
-        "                known_ids = {o.id for o in graph.objects}\n"
-        "                graph.new_objects([s for s in stubs if s.key == \"nets\" or s.id not in known_ids])")]),
 }
 
 
@@ -1120,12 +1109,9 @@ class patched:
 # attribution of a deviation to a known finding: does it disappear under exactly that finding's minimal fix?
 # ---------------------------------------------------------------------------------------------
 
-_FIX = {"fix-unique-parent-variant": "unique-parent-reuse-ignores-shared-vm-variant",
-        "fix-shadowed-test_object": "shadowed-test_object",
-        "fix-objects-of-later-workers": "first-worker-restricts-vm-objects"}
-# single fixes first, then pairs, then all three: an input may exhibit several findings at once
-FINDING_OF_PATCH = [(combo, "+".join(_FIX[c] for c in combo))
-                    for k in (1, 2, 3) for combo in __import__("itertools").combinations(list(_FIX), k)]
+_FIX = {"fix-unique-parent-variant": "unique-parent-reuse-ignores-shared-vm-variant"}
+FINDING_OF_PATCH = [((patch,), key) for patch, key in _FIX.items()]
+KNOWN_KEYS = ("unique-parent-reuse-ignores-shared-vm-variant", "double-clone")
 
 
 def run_attributed(ctx, case, run_one, double_clone_key="double-clone"):
@@ -1165,6 +1151,11 @@ def run_attributed(ctx, case, run_one, double_clone_key="double-clone"):
             if not trial.violations and not trial.disagreements:
                 attributed = key
                 break
+    if double_clone_key in keys:
+        # the input has the double-clone shape: everything observed on it belongs to that input class
+        attributed = None
+        for v in sub.violations:
+            v["key"] = double_clone_key
     for v in sub.violations:
         if v["key"] == "parser-timeout" and not attributed:
             ctx.notes.append("parser did not finish within the time bound (not attributable to a finding; harness "
@@ -1335,3 +1326,32 @@ def corpus_cases(prop):
             if f.endswith(".json"):
                 out.append(load_case(json.load(open(os.path.join(d, f)))["case"]))
     return out
+
+
+def py_sat(tests_str, fullname):
+    """a tests restriction (lines of only/no with , and ..) on a dotted full name (set prefix included)"""
+    for kind, alts in parse_restr_lines(tests_str):
+        hit = any(all(name_matches(q, fullname) for q in alt.split("..")) for alt in alts.split(","))
+        if hit != (kind == "only"):
+            return False
+    return True
+
+
+def double_clone_suite(case):
+    """does the selection of a generated suite reach (as selected test or as producer, transitively) a test with
+    two objects that both depend on a whole group of producers?"""
+    suite = case.get("suite")
+    if not suite or suite.get("path"):
+        return False
+    tests = [t for t in suite["tests"] if t["kind"] != "noop"]
+    todo = [t for t in tests if any(py_sat(case["tests_str"], s + "." + t["name"]) for s in test_sets(t))]
+    seen = []
+    while todo:
+        t = todo.pop()
+        if t in seen:
+            continue
+        seen.append(t)
+        for o in t["objs"].values():
+            if o["get"]:
+                todo += [u for u in tests if name_matches(o["get"], u["name"])]
+    return any(sum(1 for o in t["objs"].values() if o["get"] and not o["get_state"]) >= 2 for t in seen)
